@@ -408,7 +408,7 @@ end ops
 
 /-! ### the metadata `length` field -/
 
-theorem hashGet_hashSet (h : List (String × String)) (f v : String) :
+theorem hashGet_hashSet_bk (h : List (String × String)) (f v : String) :
     hashGet (hashSet h f v) f = some v := by
   induction h with
   | nil => simp [hashSet, hashGet]
@@ -449,7 +449,7 @@ theorem cuckoo_length_step (st : Store) (h : CuckooHandle) (n : Nat) (d : Int) (
     fun k hk => Store.set_ne _ _ hk⟩
   · unfold cmdHINCRBY; rw [hm]
     simp only [hv, parseIntStrict_decimal, hr, renderInt_natCast]
-  · exact (absCuckooLength_eq_some_iff _ _ _).mpr ⟨_, Store.set_self _ _ _, hashGet_hashSet _ _ _⟩
+  · exact (absCuckooLength_eq_some_iff _ _ _).mpr ⟨_, Store.set_self _ _ _, hashGet_hashSet_bk _ _ _⟩
 
 theorem cuckoo_length_abs (st : Store) (h : CuckooHandle) (n : Nat)
     (habs : absCuckooLength st h = some n) :
